@@ -87,7 +87,8 @@ def handlers : List (String × (List String → String)) := [
   ("fdn", Effects.handleFdn),
   ("eff", Effects.handleEff),
   ("doc", Condense.handleDoc),
-  ("pieces", Condense.handlePieces)
+  ("pieces", Condense.handlePieces),
+  ("javadoc", Mask.handleJavadoc), ("gopar", Mask.handleGoPar), ("jdmark", Mask.handleJdMark)
 ]
 
 def handle (line : String) : String :=
